@@ -75,9 +75,12 @@ def plans(prop, tier):
              # cursor paused by the caller, a write (often into the node under the cursor, with and without early_abort), cursor resumed
              prof(44, nops=n, pool=60, maxlen=3, alpha=3, mode="prefix", pput=40, prem=12, pget=0, pscan=0, piscan=48, pmem=0, pprobe=0, dumpevery=0, pmod=60),
              prof(45, nops=n, pool=90, maxlen=3, alpha=3, pput=40, prem=12, pget=0, pscan=0, piscan=48, pmem=0, pprobe=0, dumpevery=0, pmod=60),
-             prof(46, nops=n + 200, pool=200, maxlen=2, alpha=8, mode="mix", pput=55, prem=10, pget=0, pscan=0, piscan=35, pmem=0, pprobe=0, dumpevery=0, pmod=60)]
+             prof(46, nops=n + 200, pool=200, maxlen=2, alpha=8, mode="mix", pput=55, prem=10, pget=0, pscan=0, piscan=35, pmem=0, pprobe=0, dumpevery=0, pmod=60),
+             # scripted: paused cursors over the collapse of a next layer's interior root (F18) and over two emptied neighbouring borders with early_abort (F19)
+             prof(48, nops=30, pool=20, maxlen=2, alpha=3, pput=40, prem=20, pget=0, pscan=0, piscan=40, pmem=0, pprobe=0, dumpevery=0, cursorsweep=1)]
         # the sequential cursor (YkIscan: findfirst / findnext transliterated) in every reachable state of the small tree model
-        M = ["MC_Iscan_5ok.cfg"] if q else ["MC_Iscan_5ok.cfg", "MC_Iscan_5b.cfg", "MC_Iscan_5F.cfg", "MC_Iscan_5G.cfg"]
+        # + the paused cursor with its re-validation / retry paths (YkIscanR) over every placement of 1-2 writes between its calls (MC_IscanW)
+        M = ["MC_Iscan_5ok.cfg", "MC_IscanW_5.cfg", "MC_IscanW_L.cfg"] if q else ["MC_Iscan_5ok.cfg", "MC_Iscan_5b.cfg", "MC_Iscan_5F.cfg", "MC_Iscan_5G.cfg", "MC_IscanW_5w2.cfg", "MC_IscanW_L.cfg", "MC_IscanW_S.cfg"]
     elif prop == "C12":
         on = ["C12"]
         m = 250 if q else 700
@@ -116,6 +119,9 @@ def main(prop, tier):
         if cfg == "MC_Tree_struct9S.cfg":
             # 12 single-layer keys at fan-out 3 (interior splits, new interior root, collapse): too many orders to enumerate, random walks instead
             seqtrace.model_check(chk, "MC_Tree_sim12.cfg", "random walks of the sequential model, 12 single-layer keys (interior split / collapse)", workers=4, simulate=250 if tier == "quick" else 3000, depth=45, timeout=1500)
+            continue
+        if cfg.startswith("MC_IscanW"):
+            seqtrace.model_check(chk, cfg, "exhaustive paused-cursor model " + cfg, timeout=3000, module="MC_IscanW", workers=14)
             continue
         if cfg.startswith("MC_Iscan"):
             seqtrace.model_check(chk, cfg, "exhaustive sequential cursor model " + cfg, timeout=2400, module="MC_Iscan", workers=14)
